@@ -602,6 +602,15 @@ class Inliner:
             n.targets[0], ast.Name) and isinstance(n.value, ast.Call):
           cands.append(n)
       params = set(scope.params)
+      # names that are not plain locals: declared global / nonlocal, or read
+      # by a nested function / lambda / class body
+      for n in ast.walk(scope.node):
+        if isinstance(n, (ast.Global, ast.Nonlocal)):
+          params |= set(n.names)
+        elif n is not scope.node and isinstance(
+            n, (ast.FunctionDef, ast.AsyncFunctionDef, ast.Lambda,
+                ast.ClassDef)):
+          params |= {x.id for x in ast.walk(n) if isinstance(x, ast.Name)}
       for n in cands:
         v = n.targets[0].id
         if stores.get(v) != 1 or v in params:
@@ -1144,6 +1153,14 @@ class Inliner:
       for n in _own_nodes(fn):
         if isinstance(n, ast.Name) and isinstance(n.ctx, (ast.Store, ast.Del)):
           stores[n.id] = stores.get(n.id, 0) + 1
+      not_plain = set()
+      for n in ast.walk(fn):
+        if isinstance(n, (ast.Global, ast.Nonlocal)):
+          not_plain |= set(n.names)
+        elif n is not fn and isinstance(
+            n, (ast.FunctionDef, ast.AsyncFunctionDef, ast.Lambda,
+                ast.ClassDef)):
+          not_plain |= {x.id for x in ast.walk(n) if isinstance(x, ast.Name)}
       recs = {}   # local -> (class, field -> expr, defining statement)
       for n in sorted((x for x in _own_nodes(fn) if isinstance(x, ast.Assign)),
                       key=lambda x: (getattr(x, 'lineno', 0),
@@ -1154,7 +1171,8 @@ class Inliner:
         v = n.targets[0].id
         if stores.get(v) != 1 or v in f.params:
           continue
-        if isinstance(n.value, ast.Name) and n.value.id in recs:
+        if isinstance(n.value, ast.Name) and n.value.id in recs and (
+            v not in not_plain):
           recs[v] = recs[n.value.id][:2] + (n,)   # an alias of a record
           continue
         ci = self._record_class_of(v, f)
